@@ -30,59 +30,6 @@ theorem comp_id (f : Aff) : f.comp Aff.id = f ∧ Aff.id.comp f = f := by
   constructor <;> (cases f; simp [Aff.comp, Aff.id])
 
 
-/-! ## draw = specification
-
-Full-strength statement (every acyclic document, every nesting depth):
-
-    theorem draw_eq_spec (doc ctx ents) (hq : every reference is rotated by a multiple of 90°, scales ≠ 0)
-        (hr : reach doc (doc.blocks.length + 1) ents = true) :                   -- acyclic and closed
-        drawLayout doc ctx ents = .ok (Spec.flatten ctx none Aff.id (blockTree doc ents), State.init)
-      -- blockTree = `unfold` without the `lawful` test
-
-It is FALSE of the model and of the code: `Insert.transform` (InsertCoordinateSystem.transform) multiplies the x/y scale
-factors of a nested INSERT by the stretch of the OCS x/y axes instead of the stretch of the rotated block axes, see
-`nested_insert_counterexample` below (replayed on the real code by the oracle: finding F18).  The proved statement
-carries the hypothesis that every `Insert.transform` met on the way is lawful; this is part of `unfold`.
-`transformIns_lawful_unrotated` and `transformIns_lawful_uniform` give the two sufficient conditions, and
-`draw_eq_spec_uniform` discharges the hypothesis for every document whose references are uniformly scaled. -/
-
-theorem draw_eq_spec_partial (doc : Doc) (ctx : Ctx) (fuel : Nat) (m : Aff) (ents : List Ent) :
-    ∀ (forest : Forest) (st : State), unfold doc fuel m ents = some forest →
-      drawEnts doc ctx fuel (ents.map (transformEnt m)) st = .ok (Spec.flatten ctx st.current m forest, st) := by
-  fun_induction unfold doc fuel m ents with
-  | case1 fuel m =>
-    intro forest st h
-    simp at h; subst h
-    simp [drawEnts, Spec.flatten]
-  | case2 fuel m k p pts es rest hrest ih =>
-    intro forest st h
-    simp at h; subst h
-    simp only [List.map_cons, transformEnt, drawEnts.eq_2, Spec.flatten, ih rest st hrest]
-    split <;> simp
-  | case3 fuel m k p pts es hrest ih =>
-    intro forest st h; simp at h
-  | case4 m i tail => intro forest st h; simp at h
-  | case5 fuel' m i es hfind => intro forest st h; simp at h
-  | case6 fuel' m i es blk hfind hlaw hch ih => intro forest st h; simp at h
-  | case7 fuel' m i es blk hfind hlaw ch hch rest hrest ih1 ih2 =>
-    intro forest st h
-    simp at h; subst h
-    have hl : xfOf (transformIns m i) blk.base = (xfOf i blk.base).comp m := by
-      simpa [lawful] using hlaw
-    have hname : (transformIns m i).name = i.name := rfl
-    have hprops : (transformIns m i).props = i.props := rfl
-    have hatt : (transformIns m i).attribs = i.attribs.map (transformAttrib m) := rfl
-    simp only [List.map_cons, transformEnt, drawEnts.eq_4, hname, hprops, hatt, hfind, hl, virtualEntities,
-      Spec.flatten, Spec.mapAttribs]
-    split
-    · rename_i hv
-      have := ih1 ch (st.push (resolveAll ctx st.current true false i.props)) hch
-      simp only [this]
-      simp [State.pop, State.push, ih2 rest st hrest]
-    · simp [ih2 rest st hrest]
-  | case8 fuel' m i es blk hfind hlaw ch hch hrest ih1 ih2 => intro forest st h; simp at h
-  | case9 fuel' m i es blk hfind hlaw => intro forest st h; simp at h
-
 /-! ## the block reference state stack -/
 
 /-- the state stack (`current_block_reference_properties`, `_saved_states`) is the same after any successful draw,
@@ -270,50 +217,27 @@ theorem draw_total (doc : Doc) (ctx : Ctx) (fuel : Nat) (ents : List Ent) (st : 
       · simp at h
       · simp at h; exact h.2
 
-/-! ## when is `Insert.transform` lawful -/
+/-! ## `Insert.transform` is lawful (after fix 603b8b3fe)
 
-/-- `Insert.transform(m)` gives the INSERT with matrix `matrix44() @ m` (and moves the ATTRIBs) for every axis-monomial `m`
-    (any composition of translations, axis scalings, mirrors, quarter turns) when the reference is rotated by 0° or 180° -/
-theorem transformIns_lawful_unrotated (m : Aff) (i : Ins) (base : P2) (hm : Monomial m)
-    (hdir : i.dir = ⟨1, 0⟩ ∨ i.dir = ⟨-1, 0⟩) : lawful m i base = true := by
+`Insert.transform(m)` gives the INSERT with matrix `matrix44() @ m` for every axis-monomial `m` (any composition of
+translations, non-zero axis scalings, mirrors, quarter turns) and every reference rotated by a multiple of 90°. -/
+
+theorem transformIns_lawful (m : Aff) (i : Ins) (base : P2) (hm : Monomial m) (hdir : AxisUnit i.dir) :
+    lawful m i base = true := by
   obtain ⟨a, b, c, d, tx, ty⟩ := m
   simp only [lawful, decide_eq_true_eq]
   rcases hm with ⟨hb, hc, ha, hd⟩ | ⟨ha, hd, hb, hc⟩ <;> simp only at ha hb hc hd
   · subst hb hc
     rcases lt_or_gt_of_ne ha with ha' | ha' <;> rcases lt_or_gt_of_ne hd with hd' | hd' <;>
-    rcases hdir with hdir | hdir <;> cases hf : i.flip <;>
-    simp [xfOf, transformIns, Aff.comp, Aff.lin, Aff.apply, mag, unit, rabs, exSign, ocsFlip, hdir, hf,
-      le_of_lt, not_le.mpr, ha', hd', ha, hd] <;> norm_num <;> (refine ⟨?_, ?_, ?_, ?_⟩ <;> ring)
-  · subst ha hd
-    rcases lt_or_gt_of_ne hb with hb' | hb' <;> rcases lt_or_gt_of_ne hc with hc' | hc' <;>
-    rcases hdir with hdir | hdir <;> cases hf : i.flip <;>
-    simp [xfOf, transformIns, Aff.comp, Aff.lin, Aff.apply, mag, unit, rabs, exSign, ocsFlip, hdir, hf,
-      le_of_lt, not_le.mpr, hb', hc', hb, hc] <;> norm_num <;> (refine ⟨?_, ?_, ?_, ?_⟩ <;> ring)
-
-/-- … and for every quarter-turn reference when `m` stretches both axes by the same absolute factor -/
-theorem transformIns_lawful_uniform (m : Aff) (i : Ins) (base : P2) (hm : Monomial m)
-    (hu : UniformScale m) (hdir : AxisUnit i.dir) : lawful m i base = true := by
-  obtain ⟨a, b, c, d, tx, ty⟩ := m
-  simp only [lawful, decide_eq_true_eq]
-  simp only [UniformScale] at hu
-  rcases hm with ⟨hb, hc, ha, hd⟩ | ⟨ha, hd, hb, hc⟩ <;> simp only at ha hb hc hd hu
-  · subst hb hc
-    rcases lt_or_gt_of_ne ha with ha' | ha' <;> rcases lt_or_gt_of_ne hd with hd' | hd' <;>
-    simp [rabs, le_of_lt, not_le.mpr, ha', hd'] at hu <;>
-    subst hu <;>
     rcases hdir with hdir | hdir | hdir | hdir <;> cases hf : i.flip <;>
     simp [xfOf, transformIns, Aff.comp, Aff.lin, Aff.apply, mag, unit, rabs, exSign, ocsFlip, hdir, hf,
       le_of_lt, not_le.mpr, ha', hd', ha, hd] <;> norm_num <;> (refine ⟨?_, ?_, ?_, ?_⟩ <;> ring)
   · subst ha hd
     rcases lt_or_gt_of_ne hb with hb' | hb' <;> rcases lt_or_gt_of_ne hc with hc' | hc' <;>
-    simp [rabs, le_of_lt, not_le.mpr, hb', hc'] at hu <;>
-    subst hu <;>
     rcases hdir with hdir | hdir | hdir | hdir <;> cases hf : i.flip <;>
     simp [xfOf, transformIns, Aff.comp, Aff.lin, Aff.apply, mag, unit, rabs, exSign, ocsFlip, hdir, hf,
       le_of_lt, not_le.mpr, hb', hc', hb, hc] <;> norm_num <;> (refine ⟨?_, ?_, ?_, ?_⟩ <;> ring)
 
-
-/-! ## the defect: a rotated reference below a non-uniformly scaled reference (finding F18) -/
 
 def p0 : EProps := ⟨"0", 256, none, "BYLAYER", -1, false, none⟩
 /-- INNER rotated by 90° -/
@@ -323,51 +247,112 @@ def wOuter : Ins := ⟨p0, "OUTER", ⟨0, 0⟩, 2, 1, ⟨1, 0⟩, false, []⟩
 def wDoc : Doc := ⟨[⟨"INNER", ⟨0, 0⟩, [.leaf .line p0 [⟨0, 0⟩, ⟨1, 0⟩]]⟩, ⟨"OUTER", ⟨0, 0⟩, [.ins wInner]⟩]⟩
 def wCtx : Ctx := mkCtx 0xFFFFFF Gen.RenderTables.aciRgb false [⟨"0", 7, none, none, "Continuous", -3, 0, true⟩]
 
-/-- neither condition can be dropped: OUTER = scale (2, 1), INNER rotated by 90° -/
-theorem nested_insert_counterexample :
-    Monomial (xfOf wOuter ⟨0, 0⟩) ∧ AxisUnit wInner.dir ∧ lawful (xfOf wOuter ⟨0, 0⟩) wInner ⟨0, 0⟩ = false := by
-  refine ⟨?_, ?_, ?_⟩
+/-- REGRESSION FACT about the UNFIXED configuration (code before 603b8b3fe, `transformInsPreFix`: scale factors measured
+    on the unrotated OCS axes; finding F18, fixed): OUTER = scale (2, 1), INNER rotated by 90° is not lawful there.
+    The current model (`transformIns`) is lawful on the same input. -/
+theorem regression_prefix_transform_unlawful :
+    Monomial (xfOf wOuter ⟨0, 0⟩) ∧ AxisUnit wInner.dir ∧
+    xfOf (transformInsPreFix (xfOf wOuter ⟨0, 0⟩) wInner) ⟨0, 0⟩ ≠ (xfOf wInner ⟨0, 0⟩).comp (xfOf wOuter ⟨0, 0⟩) ∧
+    lawful (xfOf wOuter ⟨0, 0⟩) wInner ⟨0, 0⟩ = true := by
+  refine ⟨?_, ?_, by decide +kernel, by decide +kernel⟩
   · left; simp [xfOf, wOuter, exSign, Aff.lin, ocsFlip]
   · right; left; rfl
-  · decide +kernel
 
--- the model reproduces the defect: the unit x-line of INNER is drawn from (0,0) to (0,2); its world geometry is (0,0)-(0,1)
-#guard (drawLayout wDoc wCtx [.ins wOuter]).toOption.map (fun r => r.1.map (·.pts)) = some [[⟨0, 0⟩, ⟨0, 2⟩]]
-#guard unfold wDoc 3 Aff.id [.ins wOuter] |>.isNone
-#guard reach wDoc 3 [.ins wOuter]
--- non-vacuity of draw_eq_spec_partial: the same document with a uniformly scaled OUTER unfolds (depth 2) and draws
-def wOuterU : Ins := { wOuter with sy := -2 }
-#guard (unfold wDoc 3 Aff.id [.ins wOuterU]).isSome
-#guard (drawLayout wDoc wCtx [.ins wOuterU]).toOption.map (fun r => r.1.map (·.pts)) = some [[⟨0, 0⟩, ⟨0, -2⟩]]
-#guard (unfold wDoc 3 Aff.id [.ins wOuterU]).map (fun f => (Spec.flatten wCtx none Aff.id f).map (·.pts)) = some [[⟨0, 0⟩, ⟨0, -2⟩]]
+-- the witness of F18 is now drawn at its world geometry (0,0)-(0,1), and draw = spec on it
+#guard (drawLayout wDoc wCtx [.ins wOuter]).toOption.map (fun r => r.1.map (·.pts)) = some [[⟨0, 0⟩, ⟨0, 1⟩]]
+#guard (unfold wDoc 3 [.ins wOuter]).map (fun f => (Spec.flatten wCtx none Aff.id f).map (·.pts)) = some [[⟨0, 0⟩, ⟨0, 1⟩]]
+#guard reach wDoc (wDoc.blocks.length + 1) [.ins wOuter]
 
-/-! ## uniformly scaled documents: the lawfulness hypothesis is discharged -/
+/-! ## draw = specification, full strength for the modelled documents
 
-private theorem rabs_eq_abs (a : Rat) : rabs a = |a| := by
-  unfold rabs
-  split_ifs with h
-  · exact (abs_of_nonneg h).symm
-  · exact (abs_of_neg (not_le.mp h)).symm
+Hypotheses that remain and why:
+  * `DocQuarter` / `EntsQuarter`: every reference is rotated by a multiple of 90° (the model's norm `|x|+|y|` is the
+    Euclidean norm only for axis-aligned vectors; for general angles the composed matrix of a rotated reference under a
+    non-uniform scale is a shear, which the code handles by the explode fall-back that is outside the model) and has
+    non-zero scale factors (`InsertCoordinateSystem.transform` normalises the transformed axes, a zero scale makes that a
+    division by zero);
+  * `reach`: the block graph is acyclic and closed (otherwise the front end raises, see `draw_total`).
+No uniformity / "unrotated" hypothesis is left. -/
 
-private theorem xfOf_MU (i : Ins) (base : P2) (h : InsUniform i) :
-    Monomial (xfOf i base) ∧ UniformScale (xfOf i base) := by
-  obtain ⟨hd, hsx, hs⟩ := h
-  have hsy : i.sy ≠ 0 := by
-    intro h0; rw [h0, rabs_eq_abs, rabs_eq_abs, abs_zero] at hs; exact hsx (abs_eq_zero.mp hs)
-  rw [rabs_eq_abs, rabs_eq_abs] at hs
+private theorem xfOf_monomial (i : Ins) (base : P2) (h : InsQuarter i) : Monomial (xfOf i base) := by
+  obtain ⟨hd, hsx, hsy⟩ := h
   rcases hd with hd | hd | hd | hd <;> cases hf : i.flip <;>
-  simp [xfOf, Monomial, UniformScale, exSign, Aff.lin, ocsFlip, hd, hf, rabs_eq_abs, hsx, hsy, hs]
+  simp [xfOf, Monomial, exSign, Aff.lin, ocsFlip, hd, hf, hsx, hsy]
 
-private theorem comp_MU (f g : Aff) (hf : Monomial f) (hfu : UniformScale f) (hg : Monomial g) (hgu : UniformScale g) :
-    Monomial (f.comp g) ∧ UniformScale (f.comp g) := by
+private theorem comp_monomial (f g : Aff) (hf : Monomial f) (hg : Monomial g) : Monomial (f.comp g) := by
   obtain ⟨fa, fb, fc, fd, ftx, fty⟩ := f
   obtain ⟨ga, gb, gc, gd, gtx, gty⟩ := g
-  simp only [UniformScale, rabs_eq_abs] at hfu hgu
   rcases hf with ⟨h1, h2, h3, h4⟩ | ⟨h1, h2, h3, h4⟩ <;> rcases hg with ⟨k1, k2, k3, k4⟩ | ⟨k1, k2, k3, k4⟩ <;>
   simp only at h1 h2 h3 h4 k1 k2 k3 k4 <;> subst h1 h2 k1 k2 <;>
-  simp at hfu hgu <;>
-  simp [Aff.comp, Monomial, UniformScale, rabs_eq_abs, h3, h4, k3, k4] <;>
-  rw [hfu, hgu]
+  simp [Aff.comp, Monomial, h3, h4, k3, k4]
+
+private theorem find_mem (doc : Doc) (name : String) (blk : Block) (h : doc.find name = some blk) : blk ∈ doc.blocks :=
+  List.mem_of_find?_eq_some h
+
+/-- General form (any nesting depth, any accumulated axis-monomial transformation `m`, any state): the stateful
+    traversal with in-place transformed copies, `Insert.transform` on nested references and push/pop of the block reference
+    state returns exactly `Spec.flatten` of the block tree under `m`, and the state it started with. -/
+theorem draw_eq_spec_tree (doc : Doc) (ctx : Ctx) (hd : DocQuarter doc) (fuel : Nat) (ents : List Ent) :
+    ∀ (m : Aff) (forest : Forest) (st : State), Monomial m → EntsQuarter ents → unfold doc fuel ents = some forest →
+      drawEnts doc ctx fuel (ents.map (transformEnt m)) st = .ok (Spec.flatten ctx st.current m forest, st) := by
+  fun_induction unfold doc fuel ents with
+  | case1 fuel =>
+    intro m forest st _ _ h
+    simp at h; subst h
+    simp [drawEnts, Spec.flatten]
+  | case2 fuel k p pts es rest hrest ih =>
+    intro m forest st hm he h
+    simp at h; subst h
+    have he' : EntsQuarter es := fun i hi => he i (List.mem_cons_of_mem _ hi)
+    simp only [List.map_cons, transformEnt, drawEnts.eq_2, Spec.flatten, ih m rest st hm he' hrest]
+    split <;> simp
+  | case3 fuel k p pts es hrest ih => intro m forest st _ _ h; simp at h
+  | case4 i tail => intro m forest st _ _ h; simp at h
+  | case5 fuel' i es hfind => intro m forest st _ _ h; simp at h
+  | case6 fuel' i es blk hfind hch ih => intro m forest st _ _ h; simp at h
+  | case7 fuel' i es blk hfind ch hch rest hrest ih1 ih2 =>
+    intro m forest st hm he h
+    simp at h; subst h
+    have hi : InsQuarter i := he i List.mem_cons_self
+    have he' : EntsQuarter es := fun j hj => he j (List.mem_cons_of_mem _ hj)
+    have hl : xfOf (transformIns m i) blk.base = (xfOf i blk.base).comp m := by
+      simpa [lawful] using transformIns_lawful m i blk.base hm hi.1
+    have hm' : Monomial ((xfOf i blk.base).comp m) := comp_monomial _ _ (xfOf_monomial i blk.base hi) hm
+    have hb : EntsQuarter (blk.ents.filter (fun e => !isAttdef e)) :=
+      fun j hj => hd blk (find_mem doc _ _ hfind) j (List.mem_of_mem_filter hj)
+    have hname : (transformIns m i).name = i.name := rfl
+    have hprops : (transformIns m i).props = i.props := rfl
+    have hatt : (transformIns m i).attribs = i.attribs.map (transformAttrib m) := rfl
+    simp only [List.map_cons, transformEnt, drawEnts.eq_4, hname, hprops, hatt, hfind, hl, virtualEntities,
+      Spec.flatten, Spec.mapAttribs]
+    split
+    · have := ih1 ((xfOf i blk.base).comp m) ch (st.push (resolveAll ctx st.current true false i.props)) hm' hb hch
+      simp only [this]
+      simp [State.pop, State.push, ih2 m rest st hm he' hrest]
+    · simp [ih2 m rest st hm he' hrest]
+  | case8 fuel' i es blk hfind ch hch hrest ih1 ih2 => intro m forest st _ _ h; simp at h
+
+/-- the block tree exists for every acyclic, closed document -/
+theorem unfold_of_reach (doc : Doc) (fuel : Nat) (ents : List Ent) :
+    reach doc fuel ents = true → ∃ f, unfold doc fuel ents = some f := by
+  fun_induction unfold doc fuel ents with
+  | case1 fuel => intro _; exact ⟨_, rfl⟩
+  | case2 fuel k p pts es rest hrest ih => intro _; exact ⟨_, rfl⟩
+  | case3 fuel k p pts es hrest ih =>
+    intro hr; simp [reach] at hr
+    obtain ⟨f, hf⟩ := ih hr
+    rw [hf] at hrest; simp at hrest
+  | case4 i tail => intro hr; simp [reach] at hr
+  | case5 fuel' i es hfind => intro hr; simp [reach, hfind] at hr
+  | case6 fuel' i es blk hfind hch ih =>
+    intro hr; simp [reach, hfind] at hr
+    obtain ⟨f, hf⟩ := ih (reach_filter doc _ _ _ hr.1)
+    rw [hf] at hch; simp at hch
+  | case7 fuel' i es blk hfind ch hch rest hrest ih1 ih2 => intro _; exact ⟨_, rfl⟩
+  | case8 fuel' i es blk hfind ch hch hrest ih1 ih2 =>
+    intro hr; simp [reach, hfind] at hr
+    obtain ⟨f, hf⟩ := ih2 hr.2
+    rw [hf] at hrest; simp at hrest
 
 private theorem transformAttrib_id (a : Attrib) : transformAttrib Aff.id a = a := by
   cases a; simp [transformAttrib, Aff.apply, Aff.id]
@@ -402,67 +387,23 @@ private theorem map_transformEnt_id (ents : List Ent) (h : ∀ i, Ent.ins i ∈ 
     | leaf k p pts => simp [transformEnt, map_apply_id]
     | ins i => simp [transformEnt, transformIns_id i (h i List.mem_cons_self)]
 
-/-- `draw_eq_spec_partial` at layout level (the entities of a layout are not transformed): for every document whose
-    layout references are rotated by multiples of 90° and whose block tree exists with lawful `Insert.transform`s,
-    `draw_layout` = `Spec.flatten`, state stack untouched. -/
-theorem draw_layout_eq_spec_partial (doc : Doc) (ctx : Ctx) (ents : List Ent) (forest : Forest)
-    (hq : ∀ i, Ent.ins i ∈ ents → AxisUnit i.dir)
-    (hf : unfold doc (doc.blocks.length + 1) Aff.id ents = some forest) :
-    drawLayout doc ctx ents = .ok (Spec.flatten ctx none Aff.id forest, State.init) := by
-  have := draw_eq_spec_partial doc ctx _ Aff.id ents forest State.init hf
-  rw [map_transformEnt_id ents hq] at this
-  exact this
 
-private theorem find_mem (doc : Doc) (name : String) (blk : Block) (h : doc.find name = some blk) : blk ∈ doc.blocks :=
-  List.mem_of_find?_eq_some h
-
-/-- uniformly scaled quarter-turn documents: every `Insert.transform` on the way is lawful, the block tree exists -/
-theorem unfold_uniform (doc : Doc) (hd : DocUniform doc) (fuel : Nat) (m : Aff) (ents : List Ent) :
-    Monomial m → UniformScale m → EntsUniform ents → reach doc fuel ents = true →
-      ∃ f, unfold doc fuel m ents = some f := by
-  fun_induction unfold doc fuel m ents with
-  | case1 fuel m => intro _ _ _ _; exact ⟨_, rfl⟩
-  | case2 fuel m k p pts es rest hrest ih => intro _ _ _ _; exact ⟨_, rfl⟩
-  | case3 fuel m k p pts es hrest ih =>
-    intro hm hu he hr
-    simp [reach] at hr
-    obtain ⟨f, hf⟩ := ih hm hu (fun i hi => he i (List.mem_cons_of_mem _ hi)) hr
-    rw [hf] at hrest; simp at hrest
-  | case4 m i tail => intro _ _ _ hr; simp [reach] at hr
-  | case5 fuel' m i es hfind => intro _ _ _ hr; simp [reach, hfind] at hr
-  | case6 fuel' m i es blk hfind hlaw hch ih =>
-    intro hm hu he hr
-    simp [reach, hfind] at hr
-    have hi := he i List.mem_cons_self
-    obtain ⟨hm', hu'⟩ := comp_MU _ _ (xfOf_MU i blk.base hi).1 (xfOf_MU i blk.base hi).2 hm hu
-    have hb : EntsUniform (blk.ents.filter (fun e => !isAttdef e)) :=
-      fun j hj => hd blk (find_mem doc _ _ hfind) j (List.mem_of_mem_filter hj)
-    obtain ⟨f, hf⟩ := ih hm' hu' hb (reach_filter doc _ _ _ hr.1)
-    rw [hf] at hch; simp at hch
-  | case7 fuel' m i es blk hfind hlaw ch hch rest hrest ih1 ih2 => intro _ _ _ _; exact ⟨_, rfl⟩
-  | case8 fuel' m i es blk hfind hlaw ch hch hrest ih1 ih2 =>
-    intro hm hu he hr
-    simp [reach, hfind] at hr
-    obtain ⟨f, hf⟩ := ih2 hm hu (fun j hj => he j (List.mem_cons_of_mem _ hj)) hr.2
-    rw [hf] at hrest; simp at hrest
-  | case9 fuel' m i es blk hfind hlaw =>
-    intro hm hu he hr
-    exact absurd (transformIns_lawful_uniform m i blk.base hm hu (he i List.mem_cons_self).1) hlaw
-
-/-- For every acyclic, closed document whose block references are rotated by multiples of 90° and scaled uniformly
-    (|xscale| = |yscale|, mirrors allowed), at every nesting depth: `draw_layout` sends exactly `Spec.flatten` of the block
-    tree to the backend and leaves the state stack as it found it. -/
-theorem draw_eq_spec_uniform (doc : Doc) (ctx : Ctx) (ents : List Ent) (hd : DocUniform doc) (he : EntsUniform ents)
+/-- For every acyclic, closed document whose block references are rotated by multiples of 90° with non-zero (possibly
+    non-uniform, possibly negative) scale factors, at every nesting depth: `draw_layout` sends exactly `Spec.flatten` of the
+    block tree to the backend and leaves the block reference state stack as it found it. -/
+theorem draw_eq_spec (doc : Doc) (ctx : Ctx) (ents : List Ent) (hd : DocQuarter doc) (he : EntsQuarter ents)
     (hr : reach doc (doc.blocks.length + 1) ents = true) :
-    ∃ forest, unfold doc (doc.blocks.length + 1) Aff.id ents = some forest ∧
+    ∃ forest, unfold doc (doc.blocks.length + 1) ents = some forest ∧
       drawLayout doc ctx ents = .ok (Spec.flatten ctx none Aff.id forest, State.init) := by
   have hm : Monomial Aff.id := Or.inl ⟨rfl, rfl, by simp [Aff.id], by simp [Aff.id]⟩
-  have hu : UniformScale Aff.id := by simp [UniformScale, Aff.id, rabs]
-  obtain ⟨f, hf⟩ := unfold_uniform doc hd _ Aff.id ents hm hu he hr
-  exact ⟨f, hf, draw_layout_eq_spec_partial doc ctx ents f (fun i hi => (he i hi).1) hf⟩
+  obtain ⟨f, hf⟩ := unfold_of_reach doc _ ents hr
+  refine ⟨f, hf, ?_⟩
+  have := draw_eq_spec_tree doc ctx hd _ ents Aff.id f State.init hm he hf
+  rw [map_transformEnt_id ents (fun i hi => (he i hi).1)] at this
+  exact this
 
-/-- the hypotheses of `draw_eq_spec_uniform` are met by a depth-2 document with a mirrored, rotated reference -/
-example : DocUniform wDoc ∧ EntsUniform [.ins wOuterU] := by
+/-- the hypotheses are met by the depth-2 witness of F18 (non-uniform scale above a rotated reference) -/
+example : DocQuarter wDoc ∧ EntsQuarter [.ins wOuter] := by
   refine ⟨?_, ?_⟩
   · intro b hb i hi
     simp [wDoc] at hb
@@ -471,9 +412,7 @@ example : DocUniform wDoc ∧ EntsUniform [.ins wOuterU] := by
     exact ⟨Or.inr (Or.inl rfl), by simp [wInner], by simp [wInner]⟩
   · intro i hi
     simp at hi; subst hi
-    refine ⟨Or.inl rfl, by simp [wOuterU, wOuter], ?_⟩
-    simp [wOuterU, wOuter, rabs]
-#guard reach wDoc (wDoc.blocks.length + 1) [.ins wOuterU]
+    exact ⟨Or.inl rfl, by simp [wOuter], by simp [wOuter]⟩
 
 /-- reading of the specification at depth 2: properties are inherited down the chain of references, the point is mapped
     by the innermost reference first -/
